@@ -30,7 +30,7 @@ fn c11_polling_state() {
         let b: bool = kani::any();
         let r = p.set_polling(b);
         assert!(r == (s0 & IS_AWOKEN != 0), "set_polling reports a wake-up that arrived since the last call");
-        assert!(polling_state_raw(&p) == b as u8, "set_polling(b) leaves exactly {polling = b, awoken = false}");
+        assert!(polling_state_raw(&p) == b as u8, "set_polling(b) leaves exactly (polling = b, awoken = false)");
     } else {
         let r = p.wake();
         assert!(r == (s0 == IS_POLLING), "wake asks for a ring message exactly when a poll is in progress and nobody woke it yet");
